@@ -52,14 +52,10 @@ structure LogRow where
     storage position; format "U" with shape `n` → every coordinate `0..n-1` with the stored payload
     (position) or a fresh default (position -1) -/
 def presentSrc (fmt : String) (shape : Nat) (dflt : Int) (d : Nat) (f : T (d + 1)) : Fib Int (Int × T d) :=
+  -- "U": C07's dense iteration `shapeIter` over [0, shape) (what `presentDense` keeps the references of)
   if fmt == "U" then
-    (List.range shape).map (fun (n : Nat) =>
-      let c : Int := Int.ofNat n
-      let l := (show List (Int × T d) from f)
-      let i := lowerBound l c
-      (c, match l[i]? with
-          | some e => if e.1 = c then (Int.ofNat i, e.2) else (-1, defaultTree dflt d)
-          | none => (-1, defaultTree dflt d)))
+    (Ft.C07.shapeIter (defaultTree dflt d) (show Fib Int (T d) from f) (Ft.C07.pyRange 0 (Int.ofNat shape) 1)).map
+      (fun e => (e.1, ((match e.2.1 with | some i => Int.ofNat i | none => -1), e.2.2)))
   else (presentPosT dflt d f).map (fun e => (e.1, (Int.ofNat e.2.1, e.2.2)))
 
 /-- nested populate with the action table as loop body — an instance of `Ft.populate` at every level -/
